@@ -14,6 +14,9 @@ PATHS = ["foo", "bar", "src/a.c", "src/b.c", "dir/sub/x", "a b", "é", "foo.tar.
          # a backslash is an ordinary character of a path
          "dist\\foo.tar.gz", "C:\\out\\a.bin", "a\\/b"]
 
+# MATCH prefixes: a prefix is kept as written (trailing / doubled separators, dot components, backslashes included)
+PREFIXES = ["src", "dir/sub", "out", "", "dist/", "dir/sub/", "src//", "./src", "/", "a/../b", "C:\\out\\", "out/."]
+
 
 def hs(rng, hostile=0.5):
     """a string: plain identifier, captured-output-like or random hostile text"""
@@ -32,10 +35,10 @@ def rand_rule(rng, steps=("s0",), hostile=0.2):
         return [["CREATE", "DELETE", "MODIFY", "ALLOW", "REQUIRE", "DISALLOW"][k], pat]
     r = ["MATCH", pat]
     if rng.random() < 0.4:
-        r += ["IN", rng.choice(["src", "dir/sub", "out", ""]) if rng.random() > hostile else hs(rng, 1.0)]
+        r += ["IN", rng.choice(PREFIXES) if rng.random() > hostile else hs(rng, 1.0)]
     r += ["WITH", rng.choice(["MATERIALS", "PRODUCTS"])]
     if rng.random() < 0.4:
-        r += ["IN", rng.choice(["src", "dir/sub", "out", ""]) if rng.random() > hostile else hs(rng, 1.0)]
+        r += ["IN", rng.choice(PREFIXES) if rng.random() > hostile else hs(rng, 1.0)]
     r += ["FROM", rng.choice(list(steps)) if rng.random() > hostile else hs(rng, 1.0)]
     return r
 
